@@ -51,12 +51,21 @@ def safe_ufunc(name):
     return f
 
 
+def _objfill(shape, value):
+    """dtype=object array filled with numpy float64 scalars (so that x/0 gives inf as in float arrays, not ZeroDivisionError)"""
+    out = np.empty(shape, dtype=object)
+    v = np.float64(value)
+    for idx in np.ndindex(out.shape):
+        out[idx] = v
+    return out
+
+
 def obj_ones(shape, *a, **k):
-    return np.ones(shape, *a, **k).astype(object) if _OBJ_CTORS[0] else np.ones(shape, *a, **k)
+    return _objfill(shape, 1.0) if _OBJ_CTORS[0] and not a and not k else np.ones(shape, *a, **k)
 
 
 def obj_zeros(shape, *a, **k):
-    return np.zeros(shape, *a, **k).astype(object) if _OBJ_CTORS[0] else np.zeros(shape, *a, **k)
+    return _objfill(shape, 0.0) if _OBJ_CTORS[0] and not a and not k else np.zeros(shape, *a, **k)
 
 
 def obj_full(shape, fill_value, *a, **k):
@@ -146,6 +155,8 @@ def safe_allclose(a, b, rtol=1e-05, atol=1e-08, equal_nan=False):
 def safe_interp(x, xp, fp, *a, **k):
     """np.interp with a symbolic abscissa and/or ordinates: piecewise-linear, the segment chosen by forking"""
     if not (_has_sym(x) or _has_sym(fp) or _has_sym(xp)):
+        if isinstance(x, np.ndarray) and x.dtype == object:
+            x = x.astype(float)
         return np.interp(x, xp, fp, *a, **k)
     if isinstance(x, np.ndarray):
         return _map(np.asarray(x, dtype=object), lambda e: safe_interp(e, xp, fp))
